@@ -97,6 +97,14 @@ CHECKS["C18"] = {
     "note": TRUST,
 }
 
+CHECKS["C20"] = {
+    "technique": "deterministic simulation with the configuration as a seeded per-process build knob (swarm): the config-generic claimed oracles re-run in worker processes started on generated configuration packages",
+    "category": "exploration",
+    "text": "Configuration packages are emitted from a structural description (variant 0 mirrors the demo) under seeded transformations that keep the documented conventions: renamed keys / level keys / basetypes / type codes / leaf key, inserted and removed hierarchy levels, other file-name separators and fixed folders, changed closed vocabularies and digit widths, swapped sid/path vocabularies of a mapping, more projects, a third basetype, a third path configuration (optionally as default). Every variant is put first on the python path of fresh worker processes, and the config-generic claimed profiles run unchanged in them: paths (C05: round trip, purity, injectivity, roots, template-formatted path), finders (C11: three parties + model + junk invariance + local=server), derived (C12), algebra (C10 relations, which is where an alias/leaf-key dependence shows). Scoped to these claimed oracles; the pure sub-properties C01-C04, C06-C08 the statement also names are not claimed and only exercised incidentally.",
+    "ref": "DESIGN.md 5.12",
+    "note": TRUST + " Generated variants are well-formed by construction (confgen.py); a variant that failed to import would end the check with exit 2, not a violation.",
+}
+
 NOT_APPLICABLE = {
     "C01": "pure function of one string and the static template table; no history, storage, entropy or fault in it (cache effects on it are C13/C14's subject); deciding it is input generation, not simulation",
     "C02": "pure function of one Sid (constructors are deterministic re-encodings); nothing for a schedule or fault to act on",
@@ -116,7 +124,7 @@ PLANNED = {
 
 def main():
     checks = []
-    for prop in sorted(PROPERTY_PROFILE):
+    for prop in sorted(set(PROPERTY_PROFILE) | {"C20"}):
         c = CHECKS[prop]
         checks.append({
             "property_id": prop,
@@ -131,7 +139,7 @@ def main():
         })
     na = [{"property_id": p, "reason": r} for p, r in sorted(NOT_APPLICABLE.items())]
     for p, prof in sorted(PLANNED.items()):
-        if p not in PROPERTY_PROFILE:
+        if p not in PROPERTY_PROFILE and p != "C20":
             na.append({"property_id": p, "reason": "not built yet (planned: storesim profile '%s'); not claimed until its check exists" % prof})
     doc = {
         "version": 1,
@@ -146,7 +154,7 @@ def main():
         "engines": [{
             "name": "storesim",
             "path": "dsim/",
-            "serves_properties": sorted(PROPERTY_PROFILE),
+            "serves_properties": sorted(set(PROPERTY_PROFILE) | {"C20"}),
             "kind_free_text": "deterministic simulation with fault injection: seeded operation/fault schedules executed by real spil code in forked executor processes (epochs); crash = os._exit at a chosen file-system effect or byte; restart = re-fork from a pristine image; foreign files, read errors, listing order, cache capacity, hash seed as seeded knobs; reference model + invariants after every step; ddmin minimisation; JSON replay files",
         }],
         "checks": checks,
